@@ -1,1 +1,176 @@
-/- C19: property theorems (not yet built). -/
+/-
+  C19 — Formatting preserves the program (translation validation with a proved-sound validator).
+
+  The formatter is not modelled.  Every output the check sees is accepted only if `Fmt.accept`
+  holds for it (evaluated by the driver on the ASTs serialised from the REAL parser and on the token
+  streams of the REAL lexer).  The theorems below say what acceptance implies.
+
+  Semantics.  `validate_sound` is stated for an arbitrary compositional semantics (`Fmt.Alg`: the
+  meaning of a node is a function of its label and of the meanings of its children) that gives the
+  two members of each documented sugar pair the same meaning (`Fmt.SugarLaws`).  It is NOT a
+  theorem about `Model/Eval.run` as a whole: that interpreter stores syntax in closures, so it is not
+  literally a fold.  What is proved about it is that the only two places where it consumes a bind /
+  a method (`bindLocals`, `wrapParams`) treat both sugar forms identically, and that evaluating a
+  `local` is the same computation for both forms (`eval_local_sugar`, for every fuel, context and
+  store).  The real evaluator's corresponding call sites are shape-checked by `extract/ex_c19.py`,
+  and every case is also evaluated by the real evaluator before and after formatting.
+-/
+import JrsVerif.Proofs.Fmt
+import JrsVerif.Proofs.FmtEval
+
+namespace JrsVerif.Props.C19
+open JrsVerif.Fmt
+
+/-! ### 1. the validator is sound -/
+
+/-- a semantics that respects the sugar cannot distinguish a tree from its normal form -/
+theorem norm_sound {α : Type} (A : Alg α) (h : SugarLaws A) (t : Tree) : fold A (norm t) = fold A t :=
+  fold_norm A h t
+
+/-- "the same abstract syntax tree up to the documented sugar equivalences, HENCE the same
+    evaluation result": equal normal forms have equal meaning in every compositional semantics that
+    treats `local f = function(ps) e` like `local f(ps) = e` and `f: function(ps) e` like `f(ps): e` -/
+theorem validate_sound {α : Type} (A : Alg α) (h : SugarLaws A) (a b : Tree) (v : validate a b) :
+    fold A a = fold A b := by
+  rw [← fold_norm A h a, ← fold_norm A h b]
+  exact congrArg (fold A) v
+
+/-- the two rewrites taken one at a time -/
+theorem sugar_local_sound {α : Type} (A : Alg α) (h : SugarLaws A) (n body : Tree) (ps : List Tree) :
+    fold A (.node "bind" [.node "dfull" [n], .node "func" [.node "params" ps, body]])
+      = fold A (.node "fn" [.node "dfull" [n], .node "params" ps, body]) := by
+  simp only [fold, foldList]; exact h.local_fn _ _ _
+
+theorem sugar_field_sound {α : Type} (A : Alg α) (h : SugarLaws A) (nm vis body : Tree) (ps : List Tree) :
+    fold A (.node "field" [nm, .atom "false", .node "none" [], vis, .node "func" [.node "params" ps, body]])
+      = fold A (.node "field" [nm, .atom "false", .node "params" ps, vis, body]) := by
+  simp only [fold, foldList]; exact h.field_fn _ _ _ _
+
+/-- validation is an equivalence relation containing `t ~ norm t` -/
+theorem validate_refl (t : Tree) : validate t t := rfl
+theorem validate_symm {a b : Tree} (h : validate a b) : validate b a := Eq.symm h
+theorem validate_trans {a b c : Tree} (h1 : validate a b) (h2 : validate b c) : validate a c :=
+  Eq.trans h1 h2
+
+/-! ### 2. the normal form -/
+
+/-- a second pass has no sugar left to rewrite -/
+theorem norm_idempotent (t : Tree) : norm (norm t) = norm t := norm_idem t
+
+theorem validate_norm (t : Tree) : validate t (norm t) := (norm_idem t).symm
+
+/-- the validator is exact on normal forms: two normal trees validate iff they are equal -/
+theorem validate_normal_iff (a b : Tree) (ha : norm a = a) (hb : norm b = b) : validate a b ↔ a = b := by
+  unfold validate; rw [ha, hb]
+
+/-! ### 3. the interpreter model treats the sugar pairs alike -/
+
+open JrsVerif.Eval in
+/-- the interpreter allocates the same thunks and builds the same environment for
+    `local f(ps) = e` and `local f = function(ps) e` -/
+theorem eval_bindLocals_sugar (c : Ctx) (bs : List Bind) (t : Option (ObjId × Nat)) (d : Option ObjId) :
+    bindLocals c (bs.map unsugarBind) t d = bindLocals c bs t d := bindLocals_sugar c bs t d
+
+open JrsVerif.Eval in
+/-- evaluating a `local` whose binds are written in either form is the same computation
+    (same result, same store, same trace) for every fuel and context -/
+theorem eval_local_sugar (fuel : Nat) (c : Ctx) (bs : List Bind) (body : Expr) :
+    run fuel (.eval c (.localE (bs.map unsugarBind) body)) = run fuel (.eval c (.localE bs body)) :=
+  run_local_sugar fuel c bs body
+
+open JrsVerif.Eval in
+/-- the interpreter stores the same field body for `f(ps): e` and `f: function(ps) e` -/
+theorem eval_field_sugar (f : Field) : fieldBody (unsugarField f) = fieldBody f := fieldBody_sugar f
+
+/-! ### 4. comments -/
+
+/-- the comment sequence depends only on the comment tokens, in order: everything else
+    (white space, and every significant token) can be deleted without changing it -/
+theorem comments_of_strip_invariant (ts : List Tok) : comments (ts.filter isComment) = comments ts := by
+  induction ts with
+  | nil => rfl
+  | cons t ts ih =>
+    unfold comments at ih ⊢
+    by_cases h : isComment t = true
+    · simp only [List.filter_cons, h, if_true, List.filterMap_cons]; rw [ih]
+    · simp only [List.filter_cons, h, List.filterMap_cons]; exact ih
+
+/-- hence two token streams with the same comment tokens have the same comment sequence … -/
+theorem comments_eq_of_same_comment_tokens (a b : List Tok)
+    (h : a.filter isComment = b.filter isComment) : comments a = comments b := by
+  rw [← comments_of_strip_invariant a, ← comments_of_strip_invariant b, h]
+
+/-- … inserting or deleting a non-comment token anywhere does not change it … -/
+theorem comments_insert_other (a b : List Tok) (t : Tok) (h : isComment t = false) :
+    comments (a ++ t :: b) = comments (a ++ b) := by
+  unfold comments
+  simp only [List.filterMap_append, List.filterMap_cons, h]
+  rfl
+
+/-- … and it is a homomorphism (order is preserved) -/
+theorem comments_append (a b : List Tok) : comments (a ++ b) = comments a ++ comments b := by
+  unfold comments; exact List.filterMap_append ..
+
+/-- every comment token contributes exactly one entry: nothing is merged or dropped by the projection -/
+theorem comments_length (ts : List Tok) : (comments ts).length = (ts.filter isComment).length := by
+  induction ts with
+  | nil => rfl
+  | cons t ts ih =>
+    unfold comments at ih ⊢
+    by_cases h : isComment t = true
+    · simp only [List.filter_cons, h, if_true, List.filterMap_cons, List.length_cons]; rw [ih]
+    · simp only [List.filter_cons, h, List.filterMap_cons]; exact ih
+
+/-! ### 5. what acceptance of a case means -/
+
+/-- if the driver accepts a case, the formatter did not crash and either declined or produced text
+    that the evaluator's parser accepted, whose tree has the same meaning as the input's in every
+    sugar-respecting compositional semantics, and whose comment sequence equals the input's -/
+theorem accept_sound (c : Case) (h : accept c = true) :
+    c.panicked = false ∧
+    (c.declined = true ∨
+      ∃ o, c.outAst = some o ∧ validate c.inAst o
+        ∧ (∀ (α : Type) (A : Alg α), SugarLaws A → fold A c.inAst = fold A o)
+        ∧ comments c.inToks = comments c.outToks) := by
+  unfold accept at h
+  simp only [Bool.and_eq_true, Bool.not_eq_true', Bool.or_eq_true] at h
+  refine ⟨h.1, ?_⟩
+  rcases h.2 with hd | ⟨⟨⟨ha, hc⟩, _⟩, _⟩
+  · exact .inl hd
+  · right
+    unfold Case.astOk at ha
+    cases ho : c.outAst with
+    | none => rw [ho] at ha; exact absurd ha (by simp)
+    | some o =>
+      rw [ho] at ha
+      have hv : validate c.inAst o := of_decide_eq_true ha
+      refine ⟨o, rfl, hv, fun α A hl => validate_sound A hl _ _ hv, ?_⟩
+      unfold Case.commentsOk at hc
+      exact eq_of_beq hc
+
+/-! ### non-vacuity -/
+
+/-- there is a sugar-respecting semantics that is not constant: expanding the sugar -/
+example : SugarLaws expandAlg := ⟨fun _ _ _ => rfl, fun _ _ _ _ => rfl⟩
+
+private def tF : Tree := .node "func" [.node "params" [.node "param" [.node "dfull" [.atom "x"], .node "none" []]], .node "var" [.atom "x"]]
+private def tLocalExplicit : Tree := .node "local" [.node "binds" [.node "bind" [.node "dfull" [.atom "f"], tF]], .node "var" [.atom "f"]]
+private def tLocalSugar : Tree :=
+  .node "local" [.node "binds" [.node "fn" [.node "dfull" [.atom "f"],
+    .node "params" [.node "param" [.node "dfull" [.atom "x"], .node "none" []]], .node "var" [.atom "x"]]], .node "var" [.atom "f"]]
+
+/-- `local f = function(x) x; f` validates against `local f(x) = x; f` … -/
+example : validate tLocalExplicit tLocalSugar := by decide
+/-- … but not against a program with another body, nor when `tailstrict` is dropped -/
+example : ¬ validate tLocalExplicit (.node "local" [.node "binds" [], .node "var" [.atom "f"]]) := by decide
+example : ¬ validate
+    (.node "apply" [.node "var" [.atom "f"], .node "args" [], .node "named" [], .atom "true"])
+    (.node "apply" [.node "var" [.atom "f"], .node "args" [], .node "named" [], .atom "false"]) := by decide
+/-- `f+: function(x) x` is NOT identified with a method (the method form has no `+`) -/
+example : sugarHead (.node "field" [.node "fixed" [.atom "f"], .atom "true", .node "none" [], .atom ":", tF])
+    = .node "field" [.node "fixed" [.atom "f"], .atom "true", .node "none" [], .atom ":", tF] := by decide
+example : comments [⟨"WHITESPACE", " "⟩, ⟨"SINGLE_LINE_HASH_COMMENT", "#  a  b"⟩, ⟨"IDENT", "x"⟩,
+      ⟨"MULTI_LINE_COMMENT", "/* c\n   d */"⟩]
+    = [("SINGLE_LINE_HASH_COMMENT", ["a", "b"]), ("MULTI_LINE_COMMENT", ["c", "d"])] := by decide
+
+end JrsVerif.Props.C19
